@@ -114,6 +114,7 @@ def _rand_malformed(rng, tree):
 
 
 EXH_ALPHABET = ["/", ".", "[", "]", ":", "-", "0", "1", "a", "\\"]
+INT_ALPHABET = [" ", "+", "-", "_", "0", "1", "9", "\u0663", "\t", "x", "\u2003", "\x1f"]
 
 # fixed tree of the exhaustive sub-space: names chosen so that many short paths select something
 EXH_TREE = cm.number({
@@ -280,7 +281,9 @@ class C14(Property):
             "(1) every string of length <= %d over the alphabet %s evaluated strict and non-strict from the inner list "
             "/0/0 of a fixed 20-node tree (tokens and result compared with the model); (2) every slice [a:b], [a:b:c] "
             "and index [-n] with a, b, c in {omitted, -%d..%d} on arrays of 0..%d members (Python's own slicing is the "
-            "oracle)" % (maxlen, "".join(EXH_ALPHABET), bound, bound, bound + 1))
+            "oracle); (3) every string of length <= %d over sign/space/underscore/digit characters (incl. an Arabic-"
+            "Indic digit, EM SPACE, U+001F) as the index name of a 12-member List (Python's int() grammar)"
+            % (maxlen, "".join(EXH_ALPHABET), bound, bound, bound + 1, 3 if tier == "quick" else 4))
         # (2) slices against Python's list slicing
         vals = [None] + list(range(-bound, bound + 1))
         for n in range(0, bound + 2):
@@ -301,6 +304,17 @@ class C14(Property):
             for k in range(0, bound + 3):
                 ast = {"top": False, "trail": False, "steps": [{"t": "neg", "n": k, "sep": False}]}
                 yield self._case(arr, 0, cm.print_path(ast), True, False, ast)
+        # (3) Python's int() grammar as a sequence index: every short string over sign/space/underscore/digits
+        arr12 = cm.number({"k": "l", "name": "l", "member": {"k": "s", "name": None},
+                           "kids": [{"k": "s", "name": None, "kids": []} for _ in range(12)]})
+        for n in range(1, (3 if tier == "quick" else 4) + 1):
+            for chars in itertools.product(INT_ALPHABET, repeat=n):
+                s = "".join(chars)
+                if s in (".", ".."):
+                    continue
+                yield self._case(arr12, 0, s, True, False)
+                if all(ch in "0123456789-:" for ch in s):
+                    yield self._case(arr12, 0, "[" + s + "]", True, False)
         for n in range(0, maxlen + 1):
             for chars in itertools.product(EXH_ALPHABET, repeat=n):
                 p = "".join(chars)
